@@ -10,6 +10,7 @@ ASSUMPTIONS = [
     "unit names are enumerated from the repository's own multiplier tables (get_kcal/fat/protein_multipliers); an independent table of absolute multipliers (from billion kcal / thousand tons) is used as anchor for every name",
     "tolerance 1e-12 relative",
     "process-wide settings (population, daily requirements, inclusion flags) are drawn per case and restored afterwards",
+    "re-setting histories: the requirements are set 8 (quick) / 20 (thorough) times in one process, changing 1-3 components each time, with conversions under every setting; tables, anchors and conversions must follow the current setting",
 ]
 REL = 1e-12
 SUFFIXES = ["", " each month", " per month"]
@@ -20,6 +21,11 @@ def gen_cases(tier, seed):
     n = 16 if tier == "quick" else 64
     for k in range(n):
         cases.append({"kind": "units", "gen_seed": seed * 7 + k, "shard": k, "nshards": n, "tier": tier, "id": "units#%d" % k})
+    # histories: the process-wide requirements are re-set several times in one process (as a multi-country batch does),
+    # one component at a time, with conversions in between
+    nh = 8 if tier == "quick" else 48
+    for k in range(nh):
+        cases.append({"kind": "resettings", "gen_seed": seed * 11 + 1000 + k, "steps": 8 if tier == "quick" else 20, "tier": tier, "id": "resettings#%d" % k})
     return cases
 
 
@@ -43,8 +49,110 @@ def close(a, b):
     return bool(np.all(np.abs(a - b) <= REL * np.maximum(np.abs(a), np.abs(b)) + 1e-300))
 
 
+def run_resettings(case):
+    """A history of set_nutrition_requirements calls, each changing one or more components, with conversions under
+    every setting: the tables, the anchors and sampled conversions must follow the *current* setting."""
+    from vlib import env
+
+    env.boot(model=False)
+    from src.food_system.food import Food
+
+    rnd = random.Random(case["gen_seed"])
+    conv = Food.conversions
+    saved = dict(conv.__dict__)
+    viol, seen, stats = [], collections.Counter(), collections.Counter()
+    trail = []
+
+    def bad(mech, msg, **d):
+        seen[mech] += 1
+        if seen[mech] <= 2:
+            viol.append({"mech": mech, "msg": msg, "data": d})
+
+    cur = {"kd": 2100.0, "fd": 47.0, "pd": 51.0, "pop": 7.8e9, "incf": True, "incp": True}
+    draw = {"kd": lambda: rnd.choice([2100.0, 2345.0, rnd.uniform(500, 4000)]), "fd": lambda: rnd.choice([47.0, 61.7, rnd.uniform(5, 150)]),
+            "pd": lambda: rnd.choice([51.0, 59.5, rnd.uniform(5, 150)]), "pop": lambda: rnd.choice([3.3e7, 4.5e7, 7.8e9, rnd.uniform(1e4, 1e10)]),
+            "incf": lambda: rnd.random() < 0.5, "incp": lambda: rnd.random() < 0.5}
+    try:
+        for step in range(case["steps"]):
+            if step:
+                changed = rnd.sample(sorted(draw), rnd.choice([1, 1, 1, 2, 3]))
+                for k in changed:
+                    old = cur[k]
+                    for _ in range(5):
+                        cur[k] = draw[k]()
+                        if cur[k] != old:
+                            break
+            else:
+                changed = sorted(draw)
+            trail.append(dict(cur, changed=changed))
+            stats["changed:" + "+".join(sorted(c for c in changed if c in ("kd", "fd", "pd", "pop")))] += 1
+            conv.set_nutrition_requirements(cur["kd"], cur["fd"], cur["pd"], cur["incf"], cur["incp"], cur["pop"])
+            stats["settings_applied"] += 1
+            kd, fd, pd_, pop = cur["kd"], cur["fd"], cur["pd"], cur["pop"]
+            rk, rf, rp = ref_mult(kd, fd, pd_, pop)
+            ctx = "after settings #%d (changed %s; history %d settings)" % (step, "+".join(changed), step + 1)
+            probe = Food(1.0, 1.0, 1.0)
+            for tab, ref, nut in ((probe.get_kcal_multipliers(), rk, "kcals"), (probe.get_fat_multipliers(), rf, "fat"), (probe.get_protein_multipliers(), rp, "protein")):
+                for name, m in tab.items():
+                    base = name.replace(" each month", "").replace(" per month", "")
+                    stats["table_entries_checked"] += 1
+                    if base in ref and not close(m, ref[base]):
+                        bad("multiplier_stale_after_resetting", "%s: %s unit %r multiplier %.12g, current requirements give %.12g" % (ctx, nut, name, m, ref[base]),
+                            unit=name, nutrient=nut, changed=changed, trail=trail[-2:])
+            need = Food(conv.billion_kcals_needed, conv.thou_tons_fat_needed, conv.thou_tons_protein_needed, "billion kcals", "thousand tons", "thousand tons")
+            wantneed = (kd * 30 * pop / 1e9, fd * 30 * pop / 1e9, pd_ * 30 * pop / 1e9)
+            for nm, g, e in zip(("kcals", "fat", "protein"), (need.kcals, need.fat, need.protein), wantneed):
+                stats["anchor_checks"] += 1
+                if not close(g, e):
+                    bad("monthly_requirement_wrong", "%s: %s monthly requirement %.12g, expected %.12g" % (ctx, nm, g, e), nutrient=nm, changed=changed)
+            for s in SUFFIXES:
+                if s == " each month":
+                    nd = Food(np.array([wantneed[0]] * 2), np.array([wantneed[1]] * 2), np.array([wantneed[2]] * 2), "billion kcals" + s, "thousand tons" + s, "thousand tons" + s)
+                else:
+                    nd = Food(wantneed[0], wantneed[1], wantneed[2], "billion kcals" + s, "thousand tons" + s, "thousand tons" + s)
+                for tgt, exp in ((("percent people fed",) * 3, (100.0, 100.0, 100.0)),
+                                 (("kcals per person per day", "grams per person per day", "grams per person per day"), (kd, fd, pd_)),
+                                 (("billion people fed",) * 3, (pop / 1e9,) * 3),
+                                 (("kcals per person per day", "effective kcals per person per day", "effective kcals per person per day"), (kd, kd, kd))):
+                    y = nd.in_units(*tgt)
+                    stats["anchor_checks"] += 1
+                    for nm, g, e in zip(("kcals", "fat", "protein"), (y.kcals, y.fat, y.protein), exp):
+                        if not close(np.ravel(g)[0], e):
+                            bad("anchor_identity_broken_after_resetting", "%s: monthly requirement%s -> %s: %s = %.12g, expected %.12g" % (ctx, s, tgt[0], nm, np.ravel(g)[0], e),
+                                target=list(tgt), nutrient=nm, changed=changed, trail=trail[-2:])
+            # sampled conversions under the current setting (these also warm whatever the implementation keeps between calls)
+            bk, bf, bp = sorted(rk), sorted(rf), sorted(rp)
+            for _ in range(30):
+                s = rnd.choice(SUFFIXES)
+                a, b, c = rnd.choice(bk), rnd.choice(bf), rnd.choice(bp)
+                t = (rnd.choice(bk), rnd.choice(bf), rnd.choice(bp))
+                if s == " each month":
+                    vals = [np.array([rnd.uniform(0.001, 1e4) for _ in range(3)]) for _ in range(3)]
+                else:
+                    vals = [rnd.uniform(0.001, 1e4) for _ in range(3)]
+                x = Food(vals[0], vals[1], vals[2], a + s, b + s, c + s)
+                try:
+                    y = x.in_units(*t)
+                except AssertionError as err:
+                    bad("supported_unit_rejected", "%s: %r -> %r: %s" % (ctx, (a + s, b + s, c + s), t, str(err)[:80]), frm=[a + s, b + s, c + s], to=list(t))
+                    continue
+                stats["conversions"] += 1
+                want = (np.asarray(vals[0]) * rk[t[0]] / rk[a], np.asarray(vals[1]) * rf[t[1]] / rf[b], np.asarray(vals[2]) * rp[t[2]] / rp[c])
+                for nm, g, wv in zip(("kcals", "fat", "protein"), (y.kcals, y.fat, y.protein), want):
+                    if not close(g, wv):
+                        bad("conversion_stale_after_resetting", "%s: %r -> %r %s: got %s, current requirements give %s" % (ctx, (a + s, b + s, c + s), t, nm, np.ravel(g)[:1], np.ravel(wv)[:1]),
+                            frm=[a + s, b + s, c + s], to=list(t), nutrient=nm, changed=changed, trail=trail[-2:])
+    finally:
+        conv.__dict__.clear()
+        conv.__dict__.update(saved)
+    return {"viol": viol, "obs": {"stats": dict(stats), "samples": [], "pairs": [], "settings": {"history": trail[:3]}, "viol_counts": dict(seen)}}
+
+
 def run_case(case, tier):
     import sys
+
+    if case["kind"] == "resettings":
+        return run_resettings(case)
 
     from vlib import env
 
@@ -211,10 +319,14 @@ def summarize(cases, records, tier):
         "table_entries_checked_against_anchor": int(tot.get("table_entries_checked", 0)),
         "anchor_identity_checks": int(tot.get("anchor_checks", 0)), "helper_checks": int(tot.get("helper_checks", 0)),
         "settings_drawn": [r["obs"]["settings"] for r in ok[:4]],
+        "resetting_histories": {"settings_applied": int(tot.get("settings_applied", 0)),
+                                "changes_by_component_set": {k[8:] or "flags only": int(v) for k, v in sorted(tot.items()) if k.startswith("changed:")}},
         "exhaustive": tier == "thorough",
     }
     if cov["distinct_nontrivial"] < pairs_total:
         cov["inconclusive_reason"] = "only %d of %d ordered unit pairs covered" % (cov["distinct_nontrivial"], pairs_total)
+    if tot.get("changed:fd", 0) < 3 or tot.get("changed:pd", 0) < 3 or tot.get("changed:pop", 0) < 3 or tot.get("changed:kd", 0) < 3:
+        cov["inconclusive_reason"] = "re-setting histories changed some single requirement component fewer than 3 times"
     if not ok:
         cov["inconclusive_reason"] = "no case completed"
     return cov
